@@ -43,6 +43,8 @@ type Config struct {
 	// uninterpreted functions (sound for unsat; used where the solver cannot
 	// carry the FP conversions, e.g. the TWKB scaling pipeline).
 	AbstractConv bool
+	// IntLattice: see Solver.IntLattice.
+	IntLattice bool
 }
 
 // State of one interpreter instance (one worker).
